@@ -871,6 +871,7 @@ func (e *Executor) Execute(ctx context.Context, m File) (err error) {
 	}
 	for _, stmt := range stmts[r.Applied:] {
 		e.log.Log(LogStmt{SQL: stmt.Text, Stmt: stmt})
+		verifPoint("stmt.before")
 		if _, err = e.drv.ExecContext(ctx, stmt.Text); err != nil {
 			e.log.Log(LogError{SQL: stmt.Text, Stmt: stmt, Error: err})
 			r.done()
@@ -878,6 +879,7 @@ func (e *Executor) Execute(ctx context.Context, m File) (err error) {
 			r.Error = err.Error()
 			return &StmtExecError{File: m, Stmt: stmt, Version: r.Version, Err: err}
 		}
+		verifPoint("stmt.after")
 		r.PartialHashes = append(r.PartialHashes, "h1:"+sums[r.Applied])
 		r.Applied++
 		// In case retry attempts succeeded,
@@ -900,9 +902,11 @@ func (e *Executor) Execute(ctx context.Context, m File) (err error) {
 func (e *Executor) writeRevision(ctx context.Context, r *Revision) error {
 	r.ExecutedAt = time.Now()
 	r.OperatorVersion = e.operator
+	verifPoint("rev.before")
 	if err := e.rrw.WriteRevision(ctx, r); err != nil {
 		return &WriteRevisionError{Err: err, Revision: r}
 	}
+	verifPoint("rev.after")
 	return nil
 }
 
